@@ -7,8 +7,11 @@ cd /verif
 if ! git -C /repo diff --quiet; then echo "repo not clean"; exit 2; fi
 bak=$(mktemp -d); cp -a evidence/. "$bak"/ 2>/dev/null
 trap 'git -C /repo checkout -- . 2>/dev/null; cp -a "$bak"/. evidence/ 2>/dev/null; rm -rf "$bak"; rm -f replays/*.json' EXIT
+# optional arguments: property ids (C02 C05 ...) to restrict the run to the seeds of those properties
+filter="$*"
 for d in seeded/*/; do
   name=$(basename "$d")
+  if [ -n "$filter" ]; then case " $filter " in *" ${name:0:3} "*) ;; *) continue;; esac; fi
   checks=$(python3 -c "import json;m=json.load(open('$d/meta.json'));print(' '.join(sorted(set([m['property']]+list(m['detected_by'].keys())))))")
   if ! git -C /repo apply --check "/verif/$d/patch.diff" 2>/dev/null; then echo "$name: PATCH DOES NOT APPLY"; continue; fi
   git -C /repo apply "/verif/$d/patch.diff"
